@@ -32,6 +32,8 @@ pub const PINNED: &[(&str, &str)] = &[
     ("adjacent-lists", "- a\n\n* b\n"),
     ("dual-dash", "- - item one\n  - item two\n- plain\n"),
     ("wiki-piped-empty", "see [[n2|]] for more\n"),
+    ("email-autolink", "write to <me@example.com> today\n\n<you@example.org>\n"),
+    ("autolink-case", "see [https://e.com/README](https://e.com/readme) here\n"),
     ("adjacent-quotes-in-item", "- a\n\n  > q1\n\n  > q2\n- b\n"),
     ("dashes-open-quote", "> ---\n>\n> > ---\n\n# h\n\n---\n\nlast\n"),
     ("image-in-ref-text", "para\n\n[![alt](i.png) text](n2)\n"),
